@@ -214,7 +214,7 @@ fn run_fe<K: BufKind>(fe: Fe, script: &[Step]) -> Result<Vec<(usize, Ev)>, Strin
     }
 }
 
-fn run_cfg(fe: Fe, script: &[Step]) -> Result<Vec<(usize, Ev)>, String> {
+pub fn run_cfg(fe: Fe, script: &[Step]) -> Result<Vec<(usize, Ev)>, String> {
     match fe.cap {
         None => run_fe::<VecK>(fe, script),
         Some(n) => with_cap!(n, K => run_fe::<K>(fe, script)),
@@ -229,7 +229,7 @@ fn is_terminal(e: &Ev, fe: Fe) -> bool {
     }
 }
 
-fn fe_name(fe: Fe) -> String {
+pub fn fe_name(fe: Fe) -> String {
     format!(
         "SmlReader<{}>::{}.{}",
         fe.cap.map(|c| format!("ArrayBuf<{c}>")).unwrap_or_else(|| "Vec".into()),
